@@ -1698,6 +1698,79 @@ def _replay_param_history():
     return {'real': r, 'confirmed': not ok, 'note': 'replay: hedge and loss gradient on the same simulated paths after the parameters were updated in place, against a fresh hedger / finite differences (float32 tolerances)'}
 
 
+MODE_REPLAY = '''
+import pfhedge.nn as pnn
+from pfhedge.instruments import BrownianStock, EuropeanOption
+bad = []
+for pre in ("model.eval()", "hedger.eval(); model.train()", "nothing"):
+    net = torch.nn.Sequential(torch.nn.Linear(2, 4), torch.nn.Dropout(0.5), torch.nn.Linear(4, 1))
+    d = EuropeanOption(BrownianStock(dt=0.01), maturity=0.03)
+    if pre == "model.eval()": net.eval()
+    hedger = pnn.Hedger(net, ["log_moneyness", "time_to_maturity"])
+    if pre.startswith("hedger.eval"): hedger.eval(); net.train()
+    flags = [(type(m_).__name__, m_.training) for m_ in hedger.modules()]
+    for what, call in (("price", lambda: hedger.price(d, n_paths=4)), ("compute_loss(enable_grad=False)", lambda: hedger.compute_loss(d, n_paths=4, enable_grad=False)),
+                       ("compute_pl", lambda: (d.simulate(n_paths=4), hedger.compute_pl(d))), ("compute_hedge", lambda: hedger.compute_hedge(d))):
+        call()
+        after = [(type(m_).__name__, m_.training) for m_ in hedger.modules()]
+        if after != flags: bad.append((pre, what, "training flags changed: " + str([a_ for a_, b_ in zip(after, flags) if a_ != b_][:3])))
+result = {"got": [str(b) for b in bad][:8], "ref": []}
+'''
+
+
+def _replay_modes():
+    r = real_exec(MODE_REPLAY, {}, timeout=300)
+    ok = r.get('ok') and r['result']['got'] == []
+    return {'real': r, 'confirmed': not ok, 'note': 'replay: training flags of the hedger and all its sub-modules before and after price / compute_loss / compute_pl / compute_hedge, for mixed train/eval configurations'}
+
+
+def mode_frame_ob():
+    """C16: evaluation entry points leave the train/eval flags of the hedger and of every sub-module as they found them (the flags decide
+    how a mode-dependent layer behaves in the NEXT evaluation: state that must not depend on what was evaluated before)."""
+    def check():
+        t0 = time.time()
+        import pfhedge.nn as pnn
+        from contracts import training as TR
+        old = _set_T(3)
+        rows = []
+        try:
+            for pre in ('model in eval mode inside a training-mode hedger', 'model in training mode inside an eval-mode hedger'):
+                for what in ('price', 'compute_loss(enable_grad=False)', 'compute_hedge', 'compute_pl'):
+                    def run(c):
+                        d = TR.mk_sim_derivative(3)
+                        model = UserModel.make(1)
+                        hedger = pnn.Hedger(model, ['log_moneyness', 'time_to_maturity'])
+                        if pre.startswith('model in eval'):
+                            model.eval()
+                        else:
+                            hedger.eval()
+                            model.train()
+                        before = [(type(m_).__name__, m_.training) for m_ in hedger.modules()]
+                        if what == 'price':
+                            hedger.price(d, n_paths=SInt(TR.NP))
+                        elif what.startswith('compute_loss'):
+                            hedger.compute_loss(d, n_paths=SInt(TR.NP), enable_grad=False)
+                        else:
+                            d.simulate(n_paths=SInt(TR.NP))
+                            getattr(hedger, what)(d)
+                        return before, [(type(m_).__name__, m_.training) for m_ in hedger.modules()]
+                    paths = explore(run, DIMS + [tm.ge(TR.NP, tm.IONE), tm.gt(tm.var('M'), tm.ZERO)], max_paths=8)
+                    for p in paths:
+                        if p.outcome() != 'returns':
+                            return Verdict('unknown', 'engine', time.time() - t0, str((p.outcome(), str(p.exception)[:200], p.traceback[-400:])))
+                        b_, a_ = p.result
+                        rows.append(('%s leaves the training flags unchanged (%s)' % (what, pre), 'proved' if a_ == b_ else 'refuted', str([x for x, y in zip(a_, b_) if x != y][:3]) if a_ != b_ else ''))
+        finally:
+            _set_T(old)
+        bad = [r for r in rows if r[1] == 'refuted']
+        sample = {'claim': 'evaluation entry points do not change train/eval flags', 'vcs': [{'vc': r[0], 'status': r[1]} for r in rows]}
+        if bad:
+            return Verdict('refuted', 'path-exploration', time.time() - t0, '; '.join('%s %s' % (r[0], r[2]) for r in bad)[:600], witness={'failed': [r[0] for r in bad]}, sample=sample, replay=_replay_modes())
+        return Verdict('proved', 'path-exploration', time.time() - t0, '%d cases' % len(rows), sample=sample)
+    return Obligation('HS/modes/frame', 'frame', 'pfhedge.nn.modules.hedger.Hedger.price', check, ['C16'],
+                      clause='price, compute_loss(enable_grad=False), compute_hedge and compute_pl leave the train/eval flags of the hedger and of all its sub-modules unchanged')
+
+
 # ------------------------------------------------------------------ C16: frames and history independence
 
 def frame_ob(oid, function, run, hyps, clause, props=('C16',), replay=None):
@@ -1805,7 +1878,7 @@ def _replay_history():
 
 def c16_obligations(seed, tier='quick'):
     import torch
-    obs = [hedge_param_history_ob(False), hedge_param_history_ob(True)]
+    obs = [hedge_param_history_ob(False), hedge_param_history_ob(True), mode_frame_ob()]
 
     def run_pl(c):
         d = mk_derivative(cost=SReal(tm.var('c1')))
